@@ -114,6 +114,13 @@ pub enum Op {
     /// reposition_liquidity_v2 (Pinocchio): the other way of re-ranging
     Reposition { slot: Slot, to: ResetTo },
     DeleteBundle,
+    /// token-program Approve: the position token's owner makes a third party its one-token delegate (what the liquidity
+    /// instructions accept as position authority); a delegate approved BEFORE a lock survives the freeze
+    Approve { slot: Slot },
+    /// decrease_liquidity (half) / decrease_liquidity_v2 (all) signed by the delegate, paid out to the delegate's accounts
+    DecBy { slot: Slot, all: bool },
+    /// reposition_liquidity_v2 to the other valid range signed by the delegate
+    RepositionBy { slot: Slot },
 }
 impl Op {
     fn slot(&self) -> Option<Slot> {
@@ -129,7 +136,10 @@ impl Op {
             | Op::ResetForeign { slot }
             | Op::Lock { slot }
             | Op::TransferLocked { slot }
-            | Op::Reposition { slot, .. } => Some(*slot),
+            | Op::Reposition { slot, .. }
+            | Op::Approve { slot }
+            | Op::DecBy { slot, .. }
+            | Op::RepositionBy { slot } => Some(*slot),
             Op::SwapToEarn | Op::DeleteBundle => None,
         }
     }
@@ -155,6 +165,9 @@ impl Op {
             Op::TransferLocked { .. } => "transfer_locked_position",
             Op::Reposition { .. } => "reposition_liquidity_v2",
             Op::DeleteBundle => "delete_position_bundle",
+            Op::Approve { .. } => "token_approve_delegate",
+            Op::DecBy { .. } => "decrease_liquidity_by_delegate",
+            Op::RepositionBy { .. } => "reposition_liquidity_v2_by_delegate",
         }
     }
 }
@@ -217,6 +230,7 @@ pub struct Stats {
     pub locked_inc_ok: AtomicU64,
     pub locked_collect_ok: AtomicU64,
     pub locked_dec_refused: AtomicU64,
+    pub locked_delegate_refused: AtomicU64,
     pub locked_rerange_refused: AtomicU64,
     pub lock_refused_no_liquidity: AtomicU64,
     pub delete_refused_open: AtomicU64,
@@ -362,7 +376,15 @@ impl<'a> LifeModel<'a> {
             Op::Lock { .. } => yes(g.open && !g.locked && acc.as_ref().map(|a| a.liquidity > 0).unwrap_or(false), "lock iff open, not yet locked and liquidity > 0"),
             Op::TransferLocked { .. } => yes(g.open && g.locked, "transfer_locked_position only for locked positions"),
             Op::DeleteBundle => yes(s.bundle_alive && s.b.values().all(|p| !p.open), "delete iff the bundle exists and no bundled position is open"),
+            Op::Approve { .. } => Expect { enabled: None, why: String::new(), open: None },
+            Op::DecBy { slot, .. } => yes(g.open && !g.locked && self.delegated(s, *slot), "liquidity can be removed by a one-token delegate iff the position is open and not locked"),
+            Op::RepositionBy { slot } => yes(g.open && !g.locked && self.delegated(s, *slot), "a one-token delegate can reposition iff the position is open and not locked"),
         }
+    }
+    /// the position token account of `slot` names the world's delegate with a delegated amount of exactly one
+    fn delegated(&self, s: &St, slot: Slot) -> bool {
+        let g = s.g(slot);
+        self.keys(s, slot).and_then(|k| lw::token_view(&s.l, &k.ta[g.owner]).ok().flatten()).map(|t| t.amount == 1 && t.delegate == Some((self.w.delegate.owner, 1))).unwrap_or(false)
     }
 
     // --------------------------------------------------------------------------------------------
@@ -442,6 +464,22 @@ impl<'a> LifeModel<'a> {
                 svm::process(&mut l, &lw::ix_transfer_locked(w, &self.posref(s, *slot), k.lock_cfg, k.ta[to]))
             }
             Op::DeleteBundle => svm::process(&mut l, &lw::ix_delete_bundle(w)),
+            Op::Approve { slot } => match svm::process_builtin(&mut l, &lw::ix_approve(w, &self.posref(s, *slot))) {
+                Ok(()) => Outcome::default(),
+                Err(e) => {
+                    l = s.l.clone();
+                    Outcome { result: Some(svm::ExecError::Cpi(e)), ..Outcome::default() }
+                }
+            },
+            Op::DecBy { slot, all } => {
+                let liq = self.account(s, *slot).map(|a| a.liquidity).unwrap_or(0);
+                let amt = (if *all { liq } else { liq / 2 }).max(1);
+                svm::process(&mut l, &world::ix_decrease(&self.posref(s, *slot), &w.delegate, amt, 0, 0, *all))
+            }
+            Op::RepositionBy { slot } => {
+                let (lo, up) = self.target(s.g(*slot), ResetTo::NewValid);
+                svm::process(&mut l, &lw::ix_reposition_by(w, &self.posref(s, *slot), &w.delegate, lo, up, BIG / 2))
+            }
         };
         (o, l)
     }
@@ -477,6 +515,7 @@ impl<'a> LifeModel<'a> {
             }
             Op::Reset { to: ResetTo::NewValid, .. } | Op::Reposition { to: ResetTo::NewValid, .. } if g.locked => bump(&st.locked_rerange_refused),
             Op::Dec { .. } if g.locked => bump(&st.locked_dec_refused),
+            Op::DecBy { slot, .. } | Op::RepositionBy { slot } if g.locked && self.delegated(s, *slot) => bump(&st.locked_delegate_refused),
             Op::Lock { .. } if g.open && !g.locked => bump(&st.lock_refused_no_liquidity),
             Op::DeleteBundle if s.bundle_alive => bump(&st.delete_refused_open),
             Op::Open { pool: PoolSel::Fro, rng: Rng::NonFull, .. } if !g.open => bump(&st.fro_non_full_refused),
@@ -573,8 +612,9 @@ impl<'a> LifeModel<'a> {
                 g.lower = lo;
                 g.upper = up;
             }
-            Op::Reposition { slot, to } => {
-                let (lo, up) = self.target(&pre_g, *to);
+            Op::Reposition { slot, .. } | Op::RepositionBy { slot } => {
+                let to = if let Op::Reposition { to, .. } = op { *to } else { ResetTo::NewValid };
+                let (lo, up) = self.target(&pre_g, to);
                 let a = self.account(&n, *slot).ok_or("position vanished in reposition")?;
                 if (a.tick_lower_index, a.tick_upper_index) != (lo, up) || a.liquidity != BIG / 2 {
                     return Err(format!("{op:?}: after reposition range ({},{}) liquidity {}, requested ({lo},{up}) with {}", a.tick_lower_index, a.tick_upper_index, a.liquidity, BIG / 2));
@@ -604,7 +644,7 @@ impl<'a> LifeModel<'a> {
                     bump(&self.stats.locked_inc_ok);
                 }
             }
-            Op::Dec { slot, all } => {
+            Op::Dec { slot, all } | Op::DecBy { slot, all } => {
                 let (a, pa) = (self.account(&n, *slot).ok_or("position vanished")?, pre_acc.clone().unwrap());
                 let amt = (if *all { pa.liquidity } else { pa.liquidity / 2 }).max(1);
                 if a.liquidity != pa.liquidity - amt {
@@ -629,7 +669,7 @@ impl<'a> LifeModel<'a> {
                     bump(&self.stats.locked_collect_ok);
                 }
             }
-            Op::SwapToEarn | Op::Update { .. } => {}
+            Op::SwapToEarn | Op::Update { .. } | Op::Approve { .. } => {}
         }
         // ---- frame: no other position account is touched by a position-targeted instruction
         for sl in &self.slots {
@@ -833,6 +873,14 @@ impl<'a> Model for LifeModel<'a> {
                     v.push(Op::Lock { slot });
                     v.push(Op::TransferLocked { slot });
                 }
+                if self.with_reposition && slot == Slot::T22 && g.pool == MAIN {
+                    v.push(Op::Approve { slot });
+                    if liq > 0 {
+                        v.push(Op::DecBy { slot, all: true });
+                        v.push(Op::DecBy { slot, all: false });
+                    }
+                    v.push(Op::RepositionBy { slot });
+                }
                 if self.with_reposition {
                     v.push(Op::Reposition { slot, to: ResetTo::NewValid });
                     v.push(Op::Reposition { slot, to: if g.locked { ResetTo::Same } else { ResetTo::Unusable } });
@@ -997,6 +1045,9 @@ pub fn run(ctx: &Ctx) -> Report {
     r.guard("locked_increase_ok", a(&stats.locked_inc_ok));
     r.guard("locked_collect_ok", a(&stats.locked_collect_ok));
     r.guard("locked_decrease_refused", a(&stats.locked_dec_refused));
+    r.guard("locked_delegate_decrease_or_reposition_refused", a(&stats.locked_delegate_refused));
+    r.guard("decrease_liquidity_by_delegate_ok", g("decrease_liquidity_by_delegate:ok"));
+    r.guard("reposition_liquidity_v2_by_delegate_ok", g("reposition_liquidity_v2_by_delegate:ok"));
     r.guard("locked_rerange_refused", a(&stats.locked_rerange_refused));
     r.guard("lock_refused_without_liquidity", a(&stats.lock_refused_no_liquidity));
     r.guard("delete_bundle_refused_while_open", a(&stats.delete_refused_open));
